@@ -1438,3 +1438,46 @@ func eqs(a, b string) string {
 
 // sortKey: operand ordering must not depend on which copy (fork or upstream reference) a name belongs to.
 func sortKey(s string) string { return normRef(s) }
+
+// countWithCallees wraps an event predicate so that a static call to a function of the same package contributes that
+// function's own (path-independent) event count: a helper extracted from the analysed function does not hide its effects.
+// A callee whose count differs between its paths contributes `varying` (a large number), which exact-count rules reject.
+const varying = 1000
+
+func countWithCallees(base func(ssa.Instruction) int, depth int) func(ssa.Instruction) int {
+	var ev func(ssa.Instruction) int
+	memo := map[*ssa.Function]int{}
+	var level int
+	ev = func(i ssa.Instruction) int {
+		if n := base(i); n != 0 {
+			return n
+		}
+		call, ok := i.(*ssa.Call)
+		if !ok || level >= depth {
+			return 0
+		}
+		g := staticCallee(&call.Call)
+		if g == nil || g.Blocks == nil || g.Pkg == nil || i.Parent().Pkg == nil || g.Pkg != i.Parent().Pkg {
+			return 0
+		}
+		if v, ok := memo[g]; ok {
+			return v
+		}
+		memo[g] = 0
+		level++
+		res := countOnPaths(g, ev)
+		level--
+		v := 0
+		switch {
+		case res.Max <= 0:
+			v = 0
+		case res.Min == res.Max && !res.InLoop:
+			v = res.Max
+		default:
+			v = varying
+		}
+		memo[g] = v
+		return v
+	}
+	return ev
+}
